@@ -287,6 +287,16 @@ def run_check(pid, tier, seed, workers_override=None, cases_override=None):
   env['PYTHONPATH'] = VERIF
   env['PYTHONDONTWRITEBYTECODE'] = '1'
   env.setdefault('VERIF_REPO', '/repo')
+  # Every temporary file or directory of the workers (generated packages, config files, scratch copies) lives under one directory per
+  # run - and one under /dev/shm where checks ask for a memory-backed one - which the parent removes when the workers are done or killed.
+  import shutil
+  import tempfile
+  scratch = tempfile.mkdtemp(prefix='vf-run-%s-' % pid)
+  shm_scratch = None
+  if os.path.isdir('/dev/shm') and os.access('/dev/shm', os.W_OK | os.X_OK):
+    shm_scratch = tempfile.mkdtemp(prefix='vf-run-%s-' % pid, dir='/dev/shm')
+  env['TMPDIR'] = scratch
+  env['VF_SHM_DIR'] = shm_scratch or scratch
   procs = []
   for w in range(nworkers):
     wseed = derive_seed(seed, pid, w)
@@ -315,6 +325,9 @@ def run_check(pid, tier, seed, workers_override=None, cases_override=None):
       problems.append('worker %d: %s' % (w, r['inconclusive']))
     r['wseed'] = wseed
     results.append(r)
+  shutil.rmtree(scratch, ignore_errors=True)
+  if shm_scratch:
+    shutil.rmtree(shm_scratch, ignore_errors=True)
 
   # aggregate
   counters, buckets, fps, samples, viols, vcounts, notes = {}, {}, set(), [], [], {}, {}
